@@ -285,10 +285,14 @@ func (g *wgen) lnWire() string {
 	}
 	add(70, "name", fmt.Sprintf("%q", g.word()))
 	add(40, "type", r.PickS([]string{`"ingress"`, `"egress"`, `""`, `"Ingress"`}))
-	add(95, "address", fmt.Sprintf("%q", lnAddrs[r.Intn(len(lnAddrs))]))
+	if r.Chance(60) {
+		ms = append(ms, member{"address", fmt.Sprintf("%q", lnAddrs[r.Intn(7)])}) // resolvable under tcp and udp
+	} else {
+		add(90, "address", fmt.Sprintf("%q", lnAddrs[r.Intn(len(lnAddrs))]))
+	}
 	add(30, "bind_port", r.PickS([]string{"true", "false"}))
 	add(15, "reuseport", "true")
-	add(60, "network", r.PickS([]string{`"tcp"`, `"TCP"`, `"Tcp"`, `"udp"`, `"UDP"`, `"unix"`, `"Unix"`, `""`, `"sctp"`, `null`, `"tcp4"`}))
+	add(60, "network", r.PickS([]string{`"tcp"`, `"TCP"`, `"Tcp"`, `"udp"`, `"UDP"`, `"unix"`, `"Unix"`, `""`, `"sctp"`, `null`, `"tcp4"`, `"tcp"`, `"udp"`, `"TCP"`, `""`}))
 	add(25, "use_original_dst", r.PickS([]string{`"redirect"`, `"tproxy"`, `""`}))
 	add(25, "access_logs", r.PickS([]string{`[]`, `[{"log_path":"/a","log_format":"%f"}]`, `[{}]`, `null`}))
 	add(20, "listener_filters", `[{"type":"original_dst","go_plugin_config":null}]`)
